@@ -46,7 +46,7 @@ class C03Fill1D(Harness):
                         continue
                     if tier == "quick" and gap and wk == "int":
                         continue
-                    if K == 3 and M == 3 and wk == "real":
+                    if K == 3 and (M == 3 or wk == "real" or (gap and not keep)):
                         continue
                     yield (f"1d-K{K}-M{M}-{_hname(hist)}-w{wk}-k{int(keep)}-g{int(gap)}",
                            dict(K=K, M=M, hist=hist, weights=wk, keep_missed=keep, gap=gap, has_n=any(c[0] == "n" for c in hist)))
@@ -190,6 +190,8 @@ class C03FillND(Harness):
     def instances(self, tier):
         cfg = [(1, (2, 1)), (2, (1, 2)), (2, (2, 1))] if tier == "quick" else [(1, (2, 2)), (2, (2, 1)), (2, (1, 2)), (2, (2, 2)), (3, (2, 1)), (2, (1, 2, 1)), (2, (2, 1, 2))]
         for (K, shape), inc in itertools.product(cfg, ("TF", "FT") if tier == "quick" else ("TF", "FT", "TT", "FF")):
+            if tier != "quick" and (K == 3 or len(shape) == 3) and inc in ("TT", "FF"):
+                continue
             for hist in ND_HIST[K]:
                 for wk, keep in itertools.product(("none", "int", "real"), (True, False)):
                     if tier == "quick" and wk == "real" and not keep:
